@@ -19,9 +19,11 @@ Cond_C19_Paths == (IsF /\ Ev.e = "nil" /\ Ev.composed) => PathsComposed(Ev.desc)
 \* the library's own read-back helper (testutil.ToDirEntryFrom from the returned root, over a link system with the
 \* UnixFS reifier) yields the described tree, and its comparison helper accepts the pair in both directions
 Cond_C19_ReadBack == (IsF /\ Ev.e = "nil") =>
-    /\ Ev.rb = "ok"
-    /\ SameEntries(Ev.desc, Ev.tde)
-    /\ (Ev.composed \/ Ev.gen = "file") => (SamePaths(Ev.desc, Ev.tde) /\ Ev.cmp = "pass")
+    \* ("skip": an earlier read-back of the same process never returned - that case is the violation - and the
+    \* helpers are not called again in that process)
+    /\ Ev.rb \in {"ok", "skip"}
+    /\ Ev.rb = "ok" => /\ SameEntries(Ev.desc, Ev.tde)
+                       /\ (Ev.composed \/ Ev.gen = "file") => (SamePaths(Ev.desc, Ev.tde) /\ Ev.cmp \in {"pass", "skip"})
 \* beyond C19: the comparison helper rejects a description with one thing wrong
 Cond_X_CompareDetects == (IsF /\ Ev.e = "nil" /\ Ev.rb = "ok") => \A k \in 1 .. Len(Ev.neg) : Ev.neg[k] = "fail"
 Chk(nm, c) == c \/ PrintT(<<"VIOL", nm, l - 1>>)
